@@ -138,7 +138,13 @@ pub async fn send_appointment(
                 r.signature.clone(),
             );
             let recovered_id = TowerId(
-                cryptography::recover_pk(&receipt.to_vec(), &receipt.signature().unwrap()).unwrap(),
+                cryptography::recover_pk(&receipt.to_vec(), &receipt.signature().unwrap()).map_err(
+                    |_| {
+                        RequestError::DeserializeError(
+                            "The appointment receipt contains an undecodable signature".to_owned(),
+                        )
+                    },
+                )?,
             );
             if recovered_id == tower_id {
                 Ok((r, receipt))
